@@ -3,10 +3,12 @@
    users are added as they close; see DESIGN 5 C03.) *)
 From Avfs Require Import Base PathModel MemFS MemFile World DacLemmas.
 
-(* every object created belongs to the calling user and group and has mode perm &^ umask *)
-Theorem C03_owner : forall v tb perm,
-  m_uid (new_meta v tb perm) = us_uid (v_user v) /\ m_gid (new_meta v tb perm) = us_gid (v_user v)
-  /\ m_mode (new_meta v tb perm) = N.lor tb (N.ldiff (N.land perm FILE_MODE_MASK) (v_umask v)).
+(* every object created belongs to the calling user and has mode perm &^ umask; its group is the calling user's
+   group, or - in a set-group-ID directory (meta data [pm]) - the group of that directory, as inode_init_owner *)
+Theorem C03_owner : forall v pm tb perm,
+  m_uid (new_meta v pm tb perm) = us_uid (v_user v)
+  /\ m_gid (new_meta v pm tb perm) = (if has (m_mode pm) MODE_SETGID then m_gid pm else us_gid (v_user v))
+  /\ m_mode (new_meta v pm tb perm) = N.lor tb (N.ldiff (N.land perm FILE_MODE_MASK) (v_umask v)).
 Proof. exact new_meta_owner. Qed.
 
 (* the administrator is never refused by a permission check *)
